@@ -622,6 +622,73 @@ fn case_schema(sh: &mut Shard, idx: u64, r: &mut Rng) {
     util::nt(sh, vmon_core::mix(&[5, vmon_core::fast_hash(&versioned)]));
 }
 
+// ------------------------------------------------------------------ enum tag width boundaries
+/// Enums with exactly 255 / 256 / 257 / 65535 / 65536 / 65537 unit-like variants, values at the
+/// first, last and a random variant: the tag is one byte for <= 256 variants, otherwise two bytes
+/// little-endian (to_json and the contract-side derive agree on this; serial_value documents
+/// "Enums with more than 65536 variants are not supported", so for 65537 an error is accepted).
+fn case_enum_boundary(sh: &mut Shard, idx: u64, r: &mut Rng) {
+    let n = match r.below(9) {
+        0 => 65535usize,
+        1 => 65536,
+        2 => 65537,
+        3 | 4 => 255,
+        5 | 6 => 257,
+        _ => 256,
+    };
+    let payload = r.chance(1, 2);
+    let fields = |i: usize| if payload && i % 2 == 0 { Fields::Unnamed(vec![Type::U16]) } else { Fields::None };
+    let ty = Type::Enum((0..n).map(|i| (format!("V{}", i), fields(i))).collect());
+    let tbytes = to_bytes(&ty);
+    sh.hit(&format!("enum_boundary.variants.{}", n));
+    for i in [0usize, n - 1, r.below(n as u64) as usize, 255.min(n - 1), 256.min(n - 1)] {
+        if i > 65535 {
+            continue;
+        }
+        let mut bytes = if n <= 256 { vec![i as u8] } else { (i as u16).to_le_bytes().to_vec() };
+        let inner = if payload && i % 2 == 0 {
+            let x = r.next() as u16;
+            bytes.extend_from_slice(&x.to_le_bytes());
+            json!([x])
+        } else {
+            json!([])
+        };
+        let mut m = Map::new();
+        m.insert(format!("V{}", i), inner);
+        let j = Value::Object(m);
+        let case = || json!({"type": format!("Enum with {} variants V0..V{} (even ones carry a u16: {})", n, n - 1, payload), "json_in": j, "json_out": j, "expected_bytes_hex": vmon_core::hex(&bytes)});
+        let sig = |k: &str| format!("{}:enum{}:{}:{}", k, n, payload, vmon_core::hex(&bytes));
+        sh.evaluations += 1;
+        sh.hit("enum_boundary.serial_value");
+        match vmon_core::catch(|| ty.serial_value(&j)) {
+            Err(p) => sh.violate(idx, "convert-panic", sig("serial-panic"), format!("serial_value panicked: {}", p), case()),
+            Ok(Err(e)) => {
+                if n <= 65536 {
+                    sh.violate(idx, "json-to-bytes", sig("serial-reject"), format!("serial_value rejects variant {} of an enum with {} variants: {}", i, n, e.display(false)), case());
+                }
+            }
+            Ok(Ok(b)) if b != bytes => sh.violate(idx, "json-to-bytes", sig("serial-bytes"), format!("serial_value gives {} for variant {} of an enum with {} variants; the contract-side encoding is {}", vmon_core::hex(&b), i, n, vmon_core::hex(&bytes)), case()),
+            Ok(Ok(_)) => {}
+        }
+        sh.evaluations += 1;
+        sh.hit("enum_boundary.to_json");
+        match vmon_core::catch(|| {
+            let mut c = Cursor::new(&bytes[..]);
+            (ty.to_json(&mut c), c.offset)
+        }) {
+            Err(p) => sh.violate(idx, "convert-panic", sig("to_json-panic"), format!("to_json panicked: {}", p), case()),
+            Ok((Ok(got), off)) if got == j && off == bytes.len() => {}
+            Ok((other, off)) => sh.violate(idx, "bytes-to-json", sig("to_json-value"), format!("to_json of {} under an enum with {} variants gives {:?} (consumed {}), expected {}", vmon_core::hex(&bytes), n, other.map(|v| v.to_string()).map_err(|e| e.display(false)), off, j), case()),
+        }
+        util::nt(sh, vmon_core::mix(&[10, n as u64, i as u64, payload as u64]));
+    }
+    // the schema itself round-trips
+    sh.evaluations += 1;
+    if !matches!(from_bytes::<Type>(&tbytes), Ok(t2) if t2 == ty) {
+        sh.violate(idx, "schema-roundtrip", format!("schema:enum{}", n), format!("an enum type with {} variants does not round-trip through its binary form", n), json!({"variants": n}));
+    }
+}
+
 // ------------------------------------------------------------------ conversions
 fn case_convert(sh: &mut Shard, idx: u64, r: &mut Rng) {
     let mut size = match r.below(4) {
@@ -1051,6 +1118,8 @@ pub fn run(ctx: &ChildCtx, sh: &mut Shard) {
         let mut r = ctx.case_rng(idx);
         if idx % 5 == 4 {
             case_schema(sh, idx, &mut r);
+        } else if idx % 25 == 3 {
+            case_enum_boundary(sh, idx, &mut r);
         } else {
             case_convert(sh, idx, &mut r);
         }
